@@ -90,6 +90,13 @@ class Literal(PE):
         self.s = s
 
 
+class Toks(list):
+    """a token list that also carries results names (the part of pyparsing.ParseResults the package can observe)"""
+    def __init__(self, items=(), named=None):
+        super().__init__(items)
+        self.named = dict(named or {})
+
+
 class Regex(PE):
     def __init__(self, pattern, flags=0):
         super().__init__()
@@ -210,6 +217,12 @@ def constructors(I):
         return Literal(s)
 
     def rx(p, *a, **k):
+        from .symval import ReObj
+        if isinstance(p, ReObj) and type(p.obj).__name__ == "Pattern":
+            # a pre-compiled pattern: the same language as its source text; flags other than the default travel as an inline group
+            import re as _re
+            letters = "".join(ch for ch, fl in (("a", _re.A), ("i", _re.I), ("m", _re.M), ("s", _re.S), ("x", _re.X)) if p.obj.flags & fl)
+            p = (f"(?{letters})" if letters else "") + p.obj.pattern
         if not isinstance(p, str):
             raise AnalysisError("Regex of a non-constant pattern")
         return Regex(p)
@@ -293,6 +306,16 @@ class Grammar:
         return toks
 
     @staticmethod
+    def _named(dst, src):
+        """results names travel with the tokens they belong to (ParseResults semantics, names of later matches win)"""
+        nm = getattr(src, "named", None)
+        if nm:
+            if not isinstance(dst, Toks):
+                dst = Toks(dst)
+            dst.named.update(nm)
+        return dst
+
+    @staticmethod
     def _skipws(s, loc):
         while loc < len(s) and s[loc] in WS:
             loc += 1
@@ -342,6 +365,10 @@ class Grammar:
             m = n.rx.match(s, loc)
             if not m:
                 raise ParseFail(loc, f"expected /{n.pattern}/")
+            if m.groupdict():
+                t = Toks([m.group()])
+                t.named.update(m.groupdict())          # named groups of a Regex are results names
+                return m.end(), t
             return m.end(), [m.group()]
         if isinstance(n, White):
             j = loc
@@ -360,7 +387,7 @@ class Grammar:
             toks = []
             for i, e in enumerate(n.exprs):
                 loc, t = self._parse(e, s, loc, pre=(i > 0))
-                toks += t
+                toks = self._named(toks + list(t) if not isinstance(toks, Toks) else Toks(list(toks) + list(t), toks.named), t)
             return loc, toks
         if isinstance(n, MatchFirst):
             best = None
@@ -386,7 +413,7 @@ class Grammar:
                     break
                 if nloc == loc and count > 0:
                     break
-                loc, toks, count = nloc, toks + t, count + 1
+                loc, toks, count = nloc, self._named(Toks(list(toks) + list(t), getattr(toks, "named", None)) if isinstance(toks, Toks) else toks + list(t), t), count + 1
             if isinstance(n, OneOrMore) and count == 0:
                 raise ParseFail(loc, "expected one or more")
             return loc, toks
